@@ -11,6 +11,11 @@ Proof. intros Hs Hv. repeat autounfold with genip. unfold eq_ref. two 32 self va
 Lemma gen_v6_eq_ok self val : wf 128 self -> wf 128 val -> gen_v6_eq self val = Ok (eq_ref self val).
 Proof. intros Hs Hv. repeat autounfold with genip. unfold eq_ref. two 128 self val Hs Hv. Qed.
 
+Lemma gen_v4_ne_ok self val : wf 32 self -> wf 32 val -> gen_v4_ne self val = Ok (negb (eq_ref self val)).
+Proof. intros Hs Hv. repeat autounfold with genip. unfold eq_ref. two 32 self val Hs Hv. Qed.
+Lemma gen_v6_ne_ok self val : wf 128 self -> wf 128 val -> gen_v6_ne self val = Ok (negb (eq_ref self val)).
+Proof. intros Hs Hv. repeat autounfold with genip. unfold eq_ref. two 128 self val Hs Hv. Qed.
+
 Lemma gen_v4_lt_ok self val : wf 32 self -> wf 32 val -> gen_v4_lt self val = Ok (lt_ref 32 self val).
 Proof. intros Hs Hv. repeat autounfold with genip. unfold lt_ref. two 32 self val Hs Hv. Qed.
 Lemma gen_v6_lt_ok self val : wf 128 self -> wf 128 val -> gen_v6_lt self val = Ok (lt_ref 128 self val).
